@@ -859,7 +859,7 @@ fn main() {
         "gen" => gen(&args[2], args[3].parse().unwrap()),
         "run" => {
             let cases = read_cases_from_args();
-            run_cases_watchdog(cases, Duration::from_millis(env_u64("VERIF_HANG_MS", 4000)), |case, out| {
+            fn dispatch(case: &Case, out: &mut dyn FnMut(String)) {
                 let ps = case.param_u64("ps", 64);
                 let isz = case.param_u64("isz", 16);
                 match (ps, isz) {
@@ -872,7 +872,25 @@ fn main() {
                     (1024, 32) => run_case::<Big, 1024>(case, out),
                     _ => panic!("unsupported layout ps={ps} isz={isz}"),
                 }
-            });
+            }
+            if cfg!(miri) {
+                // under miri: on the main thread, no watchdog thread (miri insists that every thread is joined
+                // before the main thread ends; a hang is caught by the caller's time limit)
+                for case in &cases {
+                    let mut lines: Vec<String> = Vec::new();
+                    let r = std::panic::catch_unwind(std::panic::AssertUnwindSafe(|| dispatch(case, &mut |s| lines.push(s))));
+                    println!("CASE {}", case.header);
+                    for l in &lines {
+                        println!("{l}");
+                    }
+                    if r.is_err() {
+                        println!("PANIC (under miri)");
+                    }
+                    println!("END");
+                }
+            } else {
+                run_cases_watchdog(cases, Duration::from_millis(env_u64("VERIF_HANG_MS", 4000)), dispatch);
+            }
         }
         m => panic!("unknown mode {m}"),
     }
